@@ -154,3 +154,12 @@ Theorem C10_faststr_rejects_invalid_utf8 :
              = OOk (VL NMsg [VL NSome [VB [xc3; xa9]]]) s).
 Proof. exact faststr_rejects_invalid_utf8. Qed.
 Print Assumptions C10_faststr_rejects_invalid_utf8.
+
+(* audit item 4, first step: the post-condition `shaped` of C10_total_generated now says something about scalars -- a
+   declared `string` in singular / optional / oneof position of a decoded message holds valid UTF-8 (scalar_shape in
+   shaped_ty).  Elements of repeated fields and map entries are still unconstrained by `shaped` (their UTF-8 validity is
+   C10_decoded_string_utf8 at the module level); full typing `exists d, wt_msg d sc i x` is not proved. *)
+Theorem C10_shaped_string_utf8 : forall sc p x, shaped_ty sc (TScalar p) x -> scalar_module p = Some MFastStr ->
+  utf8_valid (vbytes x) = true.
+Proof. exact shaped_string_utf8. Qed.
+Print Assumptions C10_shaped_string_utf8.
